@@ -230,7 +230,7 @@ Definition reader_ok (s : st) (rs : rstate) : Prop :=
   r_reg rs <= fst (latest s) /\
   match r_root rs with
   | None => True
-  | Some x => r_reg rs <= fst x /\ nth_error (rev (hist s)) (pred (r_pubs rs)) = Some x /\ (0 < r_pubs rs)%nat
+  | Some x => r_reg rs = fst x /\ nth_error (rev (hist s)) (pred (r_pubs rs)) = Some x /\ (0 < r_pubs rs)%nat
   end.
 Definition readers_ok (s : st) : Prop := forall r rs, aget r (readers s) = Some rs -> reader_ok s rs.
 
@@ -262,16 +262,24 @@ Proof.
     destruct (N.eq_dec r' r) as [->|Hne].
     + rewrite aget_aset_same in Hget. inv Hget. split; simpl; [lia|exact I].
     + rewrite aget_aset_other in Hget by assumption. apply Hr in Hget. destruct Hget as [Ha Hb]. split; assumption.
-  - (* M.get_data_root (begin_read) *)
+  - (* M.get_data_root (begin_read): keeps the registration only when it is the id of the root *)
+    exec_inv H.
+    + intros r' rs' Hget. unfold set_readers in Hget; cbn [readers] in Hget.
+      destruct (N.eq_dec r' r) as [->|Hne].
+      * rewrite aget_aset_same in Hget. inv Hget.
+        match goal with E : aget _ (readers _) = Some _ |- _ => apply Hr in E; destruct E as [Ha _] end.
+        destruct H2 as (_ & _ & [[tl Hh] _]).
+        match goal with E : (fst (latest _) =? _) = true |- _ => apply N.eqb_eq in E; rename E into Heq end.
+        split; simpl; [assumption|]. repeat split; [symmetry; exact Heq| |rewrite Hh; simpl; lia].
+        rewrite Hh. simpl. rewrite nth_error_app2; rewrite rev_length; [|lia]. rewrite PeanoNat.Nat.sub_diag. reflexivity.
+      * rewrite aget_aset_other in Hget by assumption. apply Hr in Hget. assumption.
+    + exact Hr.
+  - (* T.dealloc_read *)
     exec_inv H. intros r' rs' Hget. unfold set_readers in Hget; cbn [readers] in Hget.
     destruct (N.eq_dec r' r) as [->|Hne].
-    + rewrite aget_aset_same in Hget. inv Hget.
-      match goal with E : aget _ (readers _) = Some _ |- _ => apply Hr in E; destruct E as [Ha _] end.
-      destruct H2 as (_ & _ & [[tl Hh] _]).
-      split; simpl; [assumption|]. repeat split; [assumption| |rewrite Hh; simpl; lia].
-      rewrite Hh. simpl. rewrite nth_error_app2; rewrite rev_length; [|lia]. rewrite PeanoNat.Nat.sub_diag. reflexivity.
-    + rewrite aget_aset_other in Hget by assumption. apply Hr in Hget. assumption.
-  - (* T.dealloc_read *)
+    + rewrite aget_adel_same in Hget. discriminate.
+    + rewrite aget_adel_other in Hget by assumption. apply Hr in Hget. assumption.
+  - (* T.dealloc_read of a begin_read that registers again *)
     exec_inv H. intros r' rs' Hget. unfold set_readers in Hget; cbn [readers] in Hget.
     destruct (N.eq_dec r' r) as [->|Hne].
     + rewrite aget_adel_same in Hget. discriminate.
@@ -293,12 +301,16 @@ Proof.
 Qed.
 
 (* reader_id_le_root: the id a reader registered (its pin) is never newer than the root it then reads *)
-Theorem reader_id_le_root : forall sched progs r rs v p,
-  aget r (readers (final sched progs)) = Some rs -> r_root rs = Some (v, p) -> r_reg rs <= v.
+Theorem reader_id_eq_root : forall sched progs r rs v p,
+  aget r (readers (final sched progs)) = Some rs -> r_root rs = Some (v, p) -> r_reg rs = v.
 Proof.
   intros sched progs r rs v p Hget Hroot. destruct (inv3_reachable sched progs) as [_ Hr].
   apply Hr in Hget. destruct Hget as [_ H]. rewrite Hroot in H. apply H.
 Qed.
+
+Theorem reader_id_le_root : forall sched progs r rs v p,
+  aget r (readers (final sched progs)) = Some rs -> r_root rs = Some (v, p) -> r_reg rs <= v.
+Proof. intros. rewrite (reader_id_eq_root sched progs r rs v p H H0). lia. Qed.
 
 (* linearizable_by_publication: what a reader sees is exactly the k-th publication, k = the number of
    publications that had happened at its M.get_data_root step; it is never anything else afterwards
